@@ -14,6 +14,13 @@ def _nproc():
 
 
 # ---------------------------------------------------------------------------------------
+def _neg_(c):
+    c = dict(c)
+    if isinstance(c.get("TS"), int) and c["TS"] < 0:
+        c["TS"] = "<- Neg%d" % (-c["TS"])
+    return c
+
+
 def c01(ctx):
     """ISI-profile equals the definition"""
     if ctx.tier == QUICK:
@@ -40,4 +47,101 @@ def c01(ctx):
                            "a case is one TLC terminal state; distinct = distinct branch paths of the scan")
 
 
-PROPS = {"C01": c01}
+def c02(ctx):
+    """SPIKE-profile equals the definition (plain, RI, adaptive)"""
+    if ctx.tier == QUICK:
+        cfgs = [dict(TS=0, TE=5, MaxSp=6, MRTSQ=tla_set([0, 10]), RISet="{FALSE, TRUE}"),
+                dict(TS=-2, TE=2, MaxSp=3, MRTSQ=tla_set([6]), RISet="{FALSE, TRUE}")]
+    else:
+        cfgs = [dict(TS=0, TE=6, MaxSp=7, MRTSQ=tla_set([0, 6, 10, 20]), RISet="{FALSE, TRUE}"),
+                dict(TS=0, TE=7, MaxSp=8, MRTSQ=tla_set([0]), RISet="{FALSE, TRUE}"),
+                dict(TS=-3, TE=3, MaxSp=4, MRTSQ=tla_set([0, 6]), RISet="{FALSE, TRUE}"),
+                dict(TS=0, TE=10, MaxSp=3, MRTSQ=tla_set([0, 10]), RISet="{FALSE, TRUE}")]
+    invs = ["Correct", "InRange", "ZeroAtShared", "MinDistIsGlobal", "CursorBounds", "Terminates", "Export"]
+    for c in cfgs:
+        c = dict(c)
+        c["DevF9"] = "FALSE"
+        c = _neg_(c)
+        res = run_tlc("SpikeScan", c, invs, workers=16, timeout=6000)
+        ctx.add_tlc(res, "SPIKE scan = definition on all train pairs x MRTS x RI")
+        if res.violated:
+            continue
+        for r in res.exports[:2]:
+            ctx.sample(r)
+        for r in res.exports:
+            ctx.count_path("/".join(r["path"]))
+        replay.run(ctx, "spike", res.exports)
+    ctx.assumptions += ["spike times on an integer grid, MRTS on the quarter grid; values compared with tolerance 1e-10",
+                        "a piecewise-linear profile is determined by its one-sided limits at the breakpoints (evaluation in between is C10)",
+                        "the compiled configuration executes the .pyx sources by transliteration (harness/pyxshim.py)"]
+    return ctx.finish(rule="every ordered pair of trains (subsets of the grid, <= MaxSp spikes) x MRTS x RI; "
+                           "a case is one TLC terminal state; distinct = distinct branch paths of the scan")
+
+
+def _neg(c):
+    c = dict(c)
+    if isinstance(c.get("TS"), int) and c["TS"] < 0:
+        c["TS"] = "<- Neg%d" % (-c["TS"])
+    return c
+
+
+SYNC_INVS = ["Correct", "OrderCorrect", "DirCorrect", "OneToOneInv", "Mutual", "PartnerIsPrevious",
+             "HitsAreCoinc", "TauBounded", "AccCorrect", "InRange", "SwapInv", "Terminates", "Export"]
+
+
+def _sync_cfgs(tier):
+    if tier == QUICK:
+        return [dict(TS=0, TE=5, MaxSp=6, MRTSQ=tla_set([0, 12]), TauQ=tla_set([0, 2, 4])),
+                dict(TS=-2, TE=5, MaxSp=3, MRTSQ=tla_set([0, 8]), TauQ=tla_set([0, 3]))]
+    return [dict(TS=0, TE=6, MaxSp=7, MRTSQ=tla_set([0, 8, 12, 24]), TauQ=tla_set([0, 2, 4, 8])),
+            dict(TS=-2, TE=6, MaxSp=3, MRTSQ=tla_set([0, 8, 12]), TauQ=tla_set([0, 2, 3, 6])),
+            dict(TS=0, TE=9, MaxSp=3, MRTSQ=tla_set([0, 12]), TauQ=tla_set([0, 4, 6]))]
+
+
+def _run_sync(ctx, checkers, what):
+    for c in _sync_cfgs(ctx.tier):
+        c = _neg(c)
+        c["DevF1"] = "FALSE"
+        res = run_tlc("SyncScan", c, SYNC_INVS, workers=16, timeout=6000)
+        ctx.add_tlc(res, what)
+        if res.violated:
+            continue
+        for r in res.exports[:2]:
+            ctx.sample(r)
+        for r in res.exports:
+            ctx.count_path("/".join(r["path"]))
+        for ck in checkers:
+            replay.run(ctx, ck, res.exports)
+    return
+
+
+def c03(ctx):
+    """SPIKE-Sync profile marks exactly the mutually coincident spikes"""
+    _run_sync(ctx, ["sync"], "coincidence scan = pairwise definition; one-to-one, mutual, partner = previous event")
+    for c in _sync_cfgs(ctx.tier):
+        c = _neg(c)
+        c["DevF1"] = "FALSE"
+        res = run_tlc("SingleScan", c, ["Correct", "CursorBounds", "Terminates", "Export"], workers=16, timeout=6000)
+        ctx.add_tlc(res, "per-spike indicator scan = pairwise definition")
+        if res.violated:
+            continue
+        ctx.sample(res.exports[len(res.exports) // 2])
+        for r in res.exports:
+            ctx.count_path("single:" + "/".join(r["path"]))
+        replay.run(ctx, "single", res.exports)
+    ctx.assumptions += ["integer spike times, MRTS and max_tau on the quarter grid so that dt = tau ties are exact in floats",
+                        "the compiled configuration executes the .pyx sources by transliteration (harness/pyxshim.py)"]
+    return ctx.finish(rule="every ordered pair of trains x MRTS x max_tau; a case is one TLC terminal state of "
+                           "SyncScan / SingleScan; distinct = distinct branch paths")
+
+
+def c04(ctx):
+    """order / directionality sign convention (bivariate part; multivariate part in the session engine)"""
+    _run_sync(ctx, ["order"], "order / directionality scans = pairwise definition; swap negates")
+    ctx.assumptions += ["integer spike times, MRTS and max_tau on the quarter grid",
+                        "the compiled configuration executes the .pyx sources by transliteration (harness/pyxshim.py)"]
+    return ctx.finish(rule="every ordered pair of trains x MRTS x max_tau; a case is one TLC terminal state; "
+                           "distinct = distinct branch paths")
+
+
+PROPS = {"C01": c01, "C02": c02, "C03": c03, "C04": c04}
